@@ -96,6 +96,9 @@ def obs_C03(j, case):
                 return True
             if s["k"] == "assign" and (s["sym"] == "." or s["value"] in (".",) or s["value"].startswith("ADDR(")):
                 return True
+            # where (relative to the segments) and how the start of a vram class is computed: members start there
+            if s["k"] == "max" or (s["k"] == "assign" and re.search(r"VRAM_CLASS|VramClass", s["sym"])):
+                return True
             return False
         items = _pick(ast, pred)
         for _, t in items:
@@ -384,9 +387,9 @@ OBS = {"C01": obs_C01, "C02": obs_C02, "C03": obs_C03, "C04": obs_C04, "C05": ob
 PROFILES = {
     "C01": {"section_order": 0.5, "subgroups": 0.5, "group": 0.35, "custom_lists": 0.5, "missing_key": 0.0, "paths": 0.1},
     "C02": {"section_order": 0.5, "subgroups": 0.4, "group": 0.4, "custom_lists": 0.4, "missing_key": 0.0, "paths": 0.1},
-    "C03": {"classes": 0.6, "align": 0.5, "override": 0.5, "missing_key": 0.0, "paths": 0.05, "max_files": 2},
-    "C04": {"align": 0.6, "override": 0.5, "missing_key": 0.0, "paths": 0.05, "max_files": 2, "cond": 0.3},
-    "C05": {"makerom": 0.5, "custom_lists": 0.5, "classes": 0.5, "missing_key": 0.0, "paths": 0.05},
+    "C03": {"classes": 0.6, "align": 0.5, "override": 0.5, "settings": 0.45, "missing_key": 0.0, "paths": 0.05, "max_files": 2},
+    "C04": {"align": 0.6, "override": 0.5, "settings": 0.45, "partial": 0.4, "missing_key": 0.0, "paths": 0.05, "max_files": 2, "cond": 0.3},
+    "C05": {"makerom": 0.5, "custom_lists": 0.5, "classes": 0.5, "subgroups": 0.4, "missing_key": 0.0, "paths": 0.05},
     "C06": {"cond": 0.6, "missing_key": 0.0, "paths": 0.1, "toplevel": 0.7, "gp": 0.4},
     "C07": {"paths": 0.9, "missing_key": 0.25, "group": 0.4, "dpath": 0.7, "header": 0.5, "partial": 0.5, "cond": 0.1},
     "C08": {"cross_pool": 0.4, "override": 0.8, "settings": 0.8, "align": 0.5, "custom_lists": 0.5, "subgroups": 0.4, "missing_key": 0.0, "paths": 0.05},
